@@ -27,6 +27,8 @@ impl ractor::Message for SMsg {}
 struct Sub {
     log: Arc<Mutex<Vec<(u64, u64, u64)>>>, // (stamp, sub, val)
     slow_ms: u64,
+    /// time spent in pre_start (a subscriber may be subscribed while it is still starting)
+    start_ms: u64,
 }
 #[cfg_attr(feature = "alt", ractor::async_trait)]
 impl Actor for Sub {
@@ -34,6 +36,9 @@ impl Actor for Sub {
     type State = ();
     type Arguments = ();
     async fn pre_start(&self, _: ActorRef<SMsg>, _: ()) -> Result<(), ActorProcessingErr> {
+        if self.start_ms > 0 {
+            tokio::time::sleep(Duration::from_millis(self.start_ms)).await;
+        }
         Ok(())
     }
     async fn handle(&self, _me: ActorRef<SMsg>, m: SMsg, _: &mut ()) -> Result<(), ActorProcessingErr> {
@@ -198,15 +203,28 @@ async fn body(seed: u64, threaded: bool) -> Outcome {
             let actor = match pl.reuse_actor_of.and_then(|r| actors.get(&r).map(|a| a.0.clone())) {
                 Some(a) => a,
                 None => {
-                    let (a, h) = Actor::spawn(None, Sub { log: log.clone(), slow_ms: pl.slow_ms }, ()).await.expect("sub");
-                    actors.insert(pl.sub, (a.clone(), Some(h)));
-                    a
+                    if pl.sub % 4 == 3 {
+                        // subscribed while still starting: the reference exists at once, pre_start takes a while
+                        let start_ms = 1 + (pl.sub * 7 + pl.at) % 25;
+                        let (a, outer) = ractor::ActorRuntime::<Sub>::spawn_instant(None, Sub { log: log.clone(), slow_ms: pl.slow_ms, start_ms }, ()).expect("sub");
+                        let h = tokio::spawn(async move {
+                            if let Ok(Ok(inner)) = outer.await {
+                                let _ = inner.await;
+                            }
+                        });
+                        actors.insert(pl.sub, (a.clone(), Some(h)));
+                        a
+                    } else {
+                        let (a, h) = Actor::spawn(None, Sub { log: log.clone(), slow_ms: pl.slow_ms, start_ms: 0 }, ()).await.expect("sub");
+                        actors.insert(pl.sub, (a.clone(), Some(h)));
+                        a
+                    }
                 }
             };
             let (sub, modulus) = (pl.sub, pl.modulus);
             let p0 = published.load(Ordering::SeqCst);
             // re-subscribing an actor that has already stopped is legal and simply yields nothing
-            let dead = actor.get_status() != ractor::ActorStatus::Running;
+            let dead = actor.get_status() > ractor::ActorStatus::Running;
             port.subscribe(actor, move |x: u64| conv(sub, modulus, x));
             let p1 = published.load(Ordering::SeqCst);
             facts.push(SubFacts { plan: pl.clone(), p0, p1, stop_req: if dead { Some(p0) } else { None }, stopped: None });
